@@ -117,8 +117,8 @@ func Denitmo(g *GlobalVarsMain) {
 	}
 	if nitratOb90 > 0 {
 		layerFraction90[0] = g.C1[6] / nitratOb90
-		layerFraction90[1] = g.C1[8] / nitratOb90
-		layerFraction90[2] = g.C1[7] / nitratOb90
+		layerFraction90[1] = g.C1[7] / nitratOb90
+		layerFraction90[2] = g.C1[8] / nitratOb90
 	}
 
 	tempOb30 := g.TEMP[g.TAG.Index]
